@@ -31,6 +31,29 @@ type outWithScope struct {
 	Sc godi.Scope `name:"k1"`
 }
 
+// A singleton whose constructor uses the provider it is given WHILE Build is
+// still running: it opens a scope of its own (with a value context), asks it
+// for the consumer, and closes it again.
+type warmupT struct{ err error }
+
+var warmupRuns int
+
+func newWarmup(p godi.Provider) *warmupT {
+	warmupRuns++
+	w := &warmupT{}
+	ctx, cancel := context.WithCancel(context.WithValue(context.Background(), valKey{5}, "warmup"))
+	sc, err := p.CreateScope(ctx)
+	if err != nil {
+		w.err = err
+		cancel()
+		return w
+	}
+	_, w.err = sc.Get(kit.TypeS[0])
+	sc.Close()
+	cancel()
+	return w
+}
+
 // H_Builtins (C18): a scope tree with and without caller contexts; services of
 // every lifetime that take context.Context / Scope / Provider as parameters or
 // parameter-object fields, resolved at a symbolic node.
@@ -50,8 +73,19 @@ func H_Builtins() {
 		w.Regs[2] = kit.Reg{Present: true, Life: kit.LScoped, Form: kit.IdVoid, Variant: 21}
 	}
 	c := godi.NewCollection()
+	// warmup: a singleton constructor that uses the provider during Build,
+	// registered before (1) or after (2) the world
+	warm := vrt.Pick("warmup", 0, 2)
+	vrt.Assume(warm == 0 || initForm == 0)
+	warmupRuns = 0
+	if warm == 1 {
+		vrt.Assume(c.AddSingleton(newWarmup) == nil)
+	}
 	errs := w.Register(c)
 	vrt.Assume(!addErrs(errs, w.N))
+	if warm == 2 {
+		vrt.Assume(c.AddSingleton(newWarmup) == nil)
+	}
 	// Build() or BuildWithContext with a context of the caller's that carries a
 	// value and is cancelled as soon as Build has returned
 	var p godi.Provider
@@ -67,6 +101,10 @@ func H_Builtins() {
 	vrt.Assert(err == nil, "C18.build_failed", "Build failed for a service taking built-ins:", err)
 	if err != nil {
 		return
+	}
+	if warm != 0 {
+		vrt.Cover("warmup_ran")
+		vrt.Assert(warmupRuns == 1, "C01.ctor_count", "the warm-up singleton was constructed", warmupRuns, "times")
 	}
 
 	// tree: n1 = provider scope with caller context (value + cancel), n2 = child
@@ -142,6 +180,7 @@ func H_Builtins() {
 					vrt.Assert(err == nil && s == rc, "C18.singleton_context", what, "singleton did not receive the root scope's context")
 					vrt.Assert(in.Ctx == rc.Context(), "C18.singleton_context", what, "the context a singleton received is not the root scope's own context")
 					vrt.Assert(in.Ctx.Err() == nil, "C18.singleton_context_cancelled", what, "the context a singleton received is cancelled while the provider is open")
+					vrt.Assert(in.Ctx.Value(valKey{5}) == nil, "C18.singleton_context", what, "the context a singleton received carries the values of a scope another constructor opened during Build")
 					vrt.Assert(in.Ctx.Value(valKey{7}) == nil, "C18.build_context_leaked", what, "the context a singleton received carries the values of the context given to BuildWithContext")
 				}
 			} else {
